@@ -69,12 +69,15 @@ CHECKS = {
              "oracle and binding: SeqMatch.tla (match statements with sequence patterns over fixed / variadic / homogeneous tuples, lists and unions of them: PEP 634 "
              "matching specified exactly and bound to CPython, the static rule transcribed from checkpattern.py; invariants ReachSound, CaptureSound, FixedExact) and "
              "Override.tla (attribute / read-only / settable property overrides across hierarchies of 3-4 classes with C3 MRO; invariant Sound; readers and writers "
-             "through every base-typed reference executed under CPython); their spec-level mutants (off-by-one star length, direct bases only, ...) are rejected.",
+             "through every base-typed reference executed under CPython); their spec-level mutants (off-by-one star length, direct bases only, ...) are rejected. "
+             "TryFlow.tla (try / except ValueError|KeyError nested to depth 2 around assignments to one Optional[int] local, a call that may raise and a use that needs int; "
+             "every program of <= 9 tokens x every raise schedule): CPython must end each execution as specified (binding of the exception semantics), real mypy --strict "
+             "decides acceptance, accepted + TypeError is a violation; the spec-level property 'only the innermost try sees the raise-point state' is violated by TLC.",
         design_ref="DESIGN.md 5.C01, notes/C01.md",
         note="flow-sensitive narrowing / join / call-compatibility core only: classes with final leaves, unions with None, isinstance / is None / "
              "truthiness / class-pattern narrowing, assignment, if/else, while, break/continue/return, call, method call; exhaustive to 3 statements "
-             "per slice, simulated programs to 7; generics, containers, protocols, operators, try/for/with are outside the model",
-        technique="TLA+ spec (FlowTyping.tla: binder transcription + concrete semantics) model-checked with TLC; every emitted program replayed into real mypy (binding) and executed under CPython (oracle)",
+             "per slice, simulated programs to 7; generics, containers, protocols, operators, for/with, try/finally are outside the model (try/except: the TryFlow fragment only)",
+        technique="TLA+ specs (FlowTyping.tla: binder transcription + concrete semantics; SeqMatch.tla, Override.tla, TryFlow.tla) model-checked with TLC; every emitted program replayed into real mypy (binding) and executed under CPython (oracle)",
     ),
     "C05": dict(
         category="exploration",
@@ -239,12 +242,15 @@ CHECKS = {
              "chunking) and PrefixOK / AllAtEnd / StreamInv on Ipc.tla (every segmentation and send interleaving); every emitted behaviour is "
              "replayed into real IPCBase objects (state compared per step) and TLC-emitted fault sequences plus early close at real byte "
              "offsets are replayed against a real foreground dmypy daemon over its socket, whose replies, liveness and status file must "
-             "match the model. Fault enumeration is the right level: the quantifier is over fault sequences and segmentations, both finite "
+             "match the model. Client plans include a complete request followed in the same write by the beginning of a second frame (spec-level mutants "
+             "CatchReceiveError, ResetOnAccept, ResetOnEof, CatchSendError are rejected). DmypyLifecycle.tla (start / status / stop / kill / restart / run / check, "
+             "an external SIGKILL, and the daemon's own idle exit under --timeout; invariants NoOrphans, FileNamesLiveOrStale, ExitLeavesNoFile) is replayed "
+             "through the real dmypy command line. Fault enumeration is the right level: the quantifier is over fault sequences and segmentations, both finite "
              "and enumerated by the model.",
         design_ref="DESIGN.md 5.C16",
         note="client faults are connection-level; bounded to <=2 connections per replayed sequence (3 in the model), frames of 1-3 abstract "
              "bytes; zero-length frames excluded; trusted: TLC, the byte-offset refinement map of the driver",
-        technique="TLA+ spec (Ipc.tla, DmypyServe.tla) model-checked with TLC; TLC-generated behaviours replayed into real IPCBase and a real dmypy daemon",
+        technique="TLA+ spec (Ipc.tla, DmypyServe.tla, DmypyLifecycle.tla) model-checked with TLC; TLC-generated behaviours replayed into real IPCBase and a real dmypy daemon",
     ),
 }
 PLANNED = {
